@@ -177,8 +177,10 @@ def concrete(v):
 
 
 class PyExec:
-    def __init__(self, path, models=None, loops=None, max_paths=2000, consts=None):
+    def __init__(self, path, models=None, loops=None, max_paths=2000, consts=None, method_models=None, attr_models=None):
         self.path = path
+        self.method_models = method_models or {}   # attribute name -> f(ex, base, args, kw, pc) -> value (objects modelled as integers)
+        self.attr_models = attr_models or {}       # attribute name -> f(ex, base) -> value
         with open(path) as f:
             self.src = f.read()
         self.tree = ast.parse(self.src)
@@ -258,6 +260,8 @@ class PyExec:
                 if isinstance(f, ast.Attribute) and isinstance(f.value, ast.Name) and f.value.id == 'logging':
                     return [('fall', env, pc, None)]      # logging.* dropped (stated)
                 out = []
+                env = dict(env)
+                self.cur_env = env               # a model of a mutating call (list.append) may set ghost entries here
                 for (p2, v) in self._eval(s.value, env, pc, fname, depth):
                     out.append(('fall', env, p2, None))
                 return out
@@ -610,6 +614,8 @@ class PyExec:
             for (p, base) in self._eval(e.value, env, pc, fname, depth):
                 if isinstance(base, Record) and e.attr in base.fields:
                     out.append((p, base.fields[e.attr]))
+                elif e.attr in self.attr_models:
+                    out.append((p, self.attr_models[e.attr](self, base)))
                 else:
                     raise PyOutOfReach('attribute %s' % e.attr)
             return out
@@ -645,6 +651,8 @@ class PyExec:
             return x - y
         if isinstance(op, ast.Mult):
             return x * y
+        if isinstance(op, ast.Div) and concrete(b) and b == 1:
+            return x                     # true division by the unit (timedelta / timedelta(minutes=1) in the integer-minute model)
         if isinstance(op, (ast.FloorDiv, ast.Mod)):
             if not (concrete(b) and b > 0):
                 raise PyOutOfReach('division by a non-constant or non-positive divisor')
@@ -686,6 +694,22 @@ class PyExec:
             res = nxt
         name = ast.unparse(e.func)
         out = []
+        kw = {}
+        for k in e.keywords:
+            vs = self._eval(k.value, env, pc, fname, depth)
+            if len(vs) != 1 or k.arg is None:
+                raise PyOutOfReach('branching or ** keyword argument')
+            kw[k.arg] = vs[0][1]
+        if isinstance(e.func, ast.Attribute) and name not in self.models and e.func.attr in self.method_models \
+                and not (isinstance(e.func.value, ast.Name) and e.func.value.id == 'self'):
+            for (p, args) in res:
+                for (p2, base) in self._eval(e.func.value, env, p, fname, depth):
+                    r = self.method_models[e.func.attr](self, base, args, kw, p2)
+                    if isinstance(r, list):
+                        out.extend(r)
+                    else:
+                        out.append((p2, r))
+            return out
         if isinstance(e.func, ast.Attribute) and isinstance(e.func.value, ast.Name):
             base = env.get(e.func.value.id)
             if isinstance(base, SymItems) and e.func.attr == 'items':
@@ -694,7 +718,7 @@ class PyExec:
                 return [(p, Lookup(z3.Select(base.arr, as_int(args[0])))) for (p, args) in res]
         for (p, args) in res:
             if name in self.models:
-                r = self.models[name](self, args, p)
+                r = self.models[name](self, args, p, **kw) if kw else self.models[name](self, args, p)
                 if isinstance(r, list):
                     out.extend(r)        # list of (pc, value)
                 else:
@@ -731,7 +755,10 @@ class PyExec:
                 raise PyOutOfReach('arity of %s' % name)
             sub = []
             saved = dict(self._loop_ord)
-            self._exec_fn(fn, dict(zip(params, args)), p, sub, depth + 1)
+            cenv = dict(zip(params, args))
+            if name.startswith('self.') and 'self' in env:
+                cenv['self'] = env['self']
+            self._exec_fn(fn, cenv, p, sub, depth + 1)
             self._loop_ord = saved
             for path in sub:
                 if path.outcome == 'return':
